@@ -167,9 +167,6 @@ pub fn issue_own(ctx: &mut Ctx, case: &Value, entry_prop: &str) -> Option<Issued
         ctx.report.diff("property", "Issuer::encode", "Issuer::encode:framing", case, json!({"token": token, "paths": paths}));
         return None;
     }
-    for (i, id) in order.iter().enumerate() {
-        tree.set_disc(*id, &discs[i]);
-    }
     let payload = match real::peek_jwt(&jwt) {
         Some(x) => x.1,
         None => {
@@ -177,6 +174,8 @@ pub fn issue_own(ctx: &mut Ctx, case: &Value, entry_prop: &str) -> Option<Issued
             return None;
         }
     };
+    attach_issued(ctx, &mut tree, &order, &payload, &discs);
+    let marks = tree.marks();
     // the members the issuer adds on request
     if kb && payload.get("cnf") != Some(&jwk) {
         ctx.report.diff("property", "Issuer::encode", "Issuer::encode:cnf-is-not-the-required-key", case,
@@ -188,8 +187,31 @@ pub fn issue_own(ctx: &mut Ctx, case: &Value, entry_prop: &str) -> Option<Issued
     if exp && !payload.get("exp").map_or(false, |e| e.is_i64() || e.is_u64()) {
         ctx.report.diff("property", "Issuer::encode", "Issuer::encode:exp-missing", case, json!({"exp": payload.get("exp")}));
     }
-    let spec = tree_op(ctx, "sha-256", &tree, payload.get("_sd"), &[]);
+    let spec = tree_op(ctx, "sha-256", &tree, None, &[]);
     Some(IssuedCase { tree, marks, token, jwt, discs, payload, claims, alg, sd_alg: "sha-256".into(), kb, exp, spec, reference: false })
+}
+
+/// Tie the disclosures and digests of an own-issued token to the marked tree: which disclosure hides
+/// which node is read off the digests (`Node::harvest`), not off the order of the disclosures in the
+/// token, and digests of no disclosure are kept as decoys wherever they stand. A node the digests do
+/// not lead to gets the disclosure at its position in the path list, so that the comparison of the
+/// payload with the specified one shows what is wrong.
+pub fn attach_issued(ctx: &mut Ctx, tree: &mut Node, order: &[usize], payload: &Value, discs: &[String]) -> crate::tree::Harvest {
+    let h = tree.harvest(payload, discs);
+    let un = tree.unassigned();
+    let mut positional = h.assigned == 0;
+    for (i, id) in order.iter().enumerate() {
+        if un.contains(id) {
+            if let Some(d) = discs.get(i) { tree.set_disc(*id, d); }
+        } else if !positional {
+            let mut same = false;
+            tree.for_each_mark_mut(&mut |m| if let crate::tree::Mark::Marked { id: j, disc: Some(d), .. } = m { if j == id && discs.get(i) == Some(d) { same = true; } });
+            if !same { positional = true; ctx.report.bump("issued:disclosures-not-in-path-order"); }
+        }
+    }
+    if !un.is_empty() { ctx.report.bump("issued:mark-not-found-by-digest"); }
+    if h.decoys_not_top > 0 { ctx.report.bump("issued:decoys-outside-top-level-sd"); }
+    h
 }
 
 /// issue with the Lean reference issuer (payload and disclosure strings computed by the driver),
